@@ -350,6 +350,19 @@ class EqNode(Node):
         return 11
 
 
+class StrictEqNode(Node):
+    """A node whose comparison operators refuse foreign operands loudly instead of returning NotImplemented (as numeric or
+    unit-carrying classes do): any `==`, `!=`, `in`, `.index()`, `.remove()` applied to such nodes raises."""
+
+    def __eq__(self, other):
+        raise TypeError("cannot compare %s with %s" % (type(self).__name__, type(other).__name__))
+
+    __ne__ = __eq__
+
+    def __hash__(self):
+        return id(self) >> 4
+
+
 class FalsyNode(Node):
     """A node that is always falsy (e.g. an 'empty' container)."""
 
@@ -453,6 +466,8 @@ def factory(clsname):
         return lambda label: EqNode(str(label))
     if clsname == "FalsyNode":
         return lambda label: FalsyNode(str(label))
+    if clsname == "StrictEqNode":
+        return lambda label: StrictEqNode(str(label))
     if clsname == "LenNode":
         return lambda label: LenNode(str(label))
     if clsname == "EqSlotLM":
@@ -480,7 +495,7 @@ def factory(clsname):
 
 # classes with their own __eq__/__hash__/__bool__/__len__ are ordinary users of the mixins: every property that
 # quantifies over "all trees" holds for them too (the harness itself only ever uses identity on nodes)
-SPECIAL_CLASSES = ["EqNode", "FalsyNode", "LenNode", "EqSlotLM", "ListNode", "TupleNode", "TupleNameNode"]
+SPECIAL_CLASSES = ["EqNode", "FalsyNode", "LenNode", "EqSlotLM", "ListNode", "TupleNode", "TupleNameNode", "StrictEqNode"]
 class ViewKidsNode(Node):
     """A node class that overrides the public `children` getter with a presentation order of its own (newest label first);
     setter and deleter are the mixin's. Whatever is defined through a node's children - siblings of ITS children included -
